@@ -208,6 +208,25 @@ def _work(item):
     except BaseException as e:  # noqa: BLE001
         out.append(({"kind": "adapter_call_fails", "step": "none_valued_option", "family": c.family, "exc": common.classify_exc(e)},
                     {"call": c.record(), "message": str(e)[:300]}))
+    # 2c. option values that need care when they are written into the generated code: strings with quotes, backslashes, line
+    # breaks, non-ASCII characters; floats that have no literal (inf, nan); large integers - each must arrive as given
+    import math
+    specials = ["a\\tb", 'q"q', "it's", "l1\nl2", "tab\there", "\u00e9\u4e2d", "", "'\"", "end\\", float("inf"), -float("inf"), float("nan"), 10 ** 30, -0.0, 1e-320]
+    for val in rng.sample(specials, 3):
+        log.clear()
+        try:
+            common.with_alarm(30, fn, c.desc, *[np.array(a) for a in c.arrays], **kw, tag=val)
+        except BaseException as e:  # noqa: BLE001
+            out.append(({"kind": "adapter_call_fails", "step": "special_option_value", "family": c.family, "exc": common.classify_exc(e)},
+                        {"call": c.record(), "given": {"tag": repr(val)}, "message": str(e)[-300:]}))
+            continue
+        if len(log) != 1:
+            continue
+        got = log[0]["tag"]
+        same = (isinstance(got, float) and math.isnan(got)) if (isinstance(val, float) and math.isnan(val)) else \
+               (type(got) is type(val) and got == val and (not isinstance(val, float) or math.copysign(1, got) == math.copysign(1, val)))
+        if not same:
+            out.append(({"kind": "keyword_only_not_forwarded_verbatim", "value": "special"}, {"call": c.record(), "received": repr(got), "given": {"tag": repr(val)}}))
     for bad in (("type", "type_duck", "shape", "arity") if c.family == "reduce" else ("type", "type_duck", "shape")):
         l2 = []
         fnb = (einx.numpy.adapt_numpylike_reduce(make_reduce(l2, "sum", bad=bad)) if c.family == "reduce"
